@@ -418,7 +418,8 @@ def run_validator(acc, P, job, names):
             x //= M
         for variant in ('file', 'missing', 'partial-registration',
                         'unparseable', 'subset', 'no-registration',
-                        'defaults-carry', 'unparseable-over-deny'):
+                        'defaults-carry', 'unparseable-over-deny',
+                        'unparseable-bang'):
             file_rules = dict(rules)
             registered = list(names)
             bodies = {n: '@' for n in names}
@@ -436,6 +437,9 @@ def run_validator(acc, P, job, names):
                 registered = []
             if variant == 'unparseable':
                 file_rules[names[0]] = 'role:x and'
+            if variant == 'unparseable-bang':
+                # unparseable text made of '!' and stray parentheses only
+                file_rules[names[0]] = ('(!', '!)', '((!)', '() !')[idx % 4]
             if variant == 'unparseable-over-deny':
                 # ... where the service's own default for that name is '!'
                 # (what an unparseable rule is turned into)
@@ -474,13 +478,15 @@ def run_validator(acc, P, job, names):
                     core.quiet_logging()
                 effective = {n: bodies[n] for n in registered}
                 effective.update(file_rules)
-                if variant in ('unparseable', 'unparseable-over-deny'):
+                if variant in ('unparseable', 'unparseable-over-deny',
+                               'unparseable-bang'):
                     effective[names[0]] = '!'
                 undefined, cyc = graph_problem(effective)
                 exp = 1 if (missing or undefined or cyc or
                             variant in ('partial-registration',
                                         'unparseable', 'no-registration',
-                                        'unparseable-over-deny'))\
+                                        'unparseable-over-deny',
+                                        'unparseable-bang'))\
                     else 0
                 if missing:
                     exp = 1
